@@ -207,6 +207,20 @@ def _c07_one(dom, J, m, origin):
     if dom.den(r) != dm:
         J.fail("R07.7", dom.blame("dep_logic.markers:_build_markers"), f"parse_marker(str(m)) for m = {dom.show(m)} gives {dom.show(r)}, "
                f"which differs at {dom.first_diff(dom.den(r), dm)}", {"text": text, "path": dom.path()})
+    if m.cls is dom.ME and tree[0] == "atom" and m.f["name"] in ("python_version", "python_full_version", "platform_release"):
+        # PEP 440's exclusive ordering is asymmetric on pre-/post-releases: the printed operand order must be the atom's own
+        from .markdomain import atom_truth, REFLECT
+        from .props.c02 import OBS_PRERELEASE
+        own = (m.f["name"], REFLECT.get(m.f["op"], m.f["op"]) if m.f.get("reversed") else m.f["op"], m.f["value"], bool(m.f.get("reversed")))
+        for full in OBS_PRERELEASE:
+            val = full if m.f["name"] != "python_version" else ".".join(full.split(".")[:2])
+            try:
+                if atom_truth(*own, val) != atom_truth(tree[1], tree[2], tree[3], tree[4], val):
+                    J.fail("R07.1", f"{_cls(m)}.__str__:prerelease-env", f"{dom.show(m)} renders as {text!r}, which means something else at {m.f['name']}={val!r} "
+                           f"(PEP 440 exclusive ordering depends on the operand order){origin}")
+                    break
+            except Undefined:
+                break
     if len(J.samples) < 1:
         J.samples.append({"marker": dom.show(m), "text": text, "reparsed": dom.show(r)})
 
